@@ -53,7 +53,7 @@ RANGES = {
     "DDM.drift_scale": (0.0, 5.0, False, "high", None),
     "EDDM.drift_thresh": (0.05, 0.97, False, "low", 0.0),
     "STEPD.alpha_drift": (1e-5, 0.05, True, "low", 0.0),
-    "LinearFourRates.detect_level": (0.002, 0.2, True, "low", None),
+    "LinearFourRates.detect_level": (0.002, 0.97, False, "low", None),  # uniform: levels above 0.5 are unusual but accepted
     "KdqTreeStreaming.alpha": (0.005, 0.5, True, "low", 0.0),
     "KdqTreeBatch.alpha": (0.005, 0.5, True, "low", 0.0),
     "NNDVI.alpha": (0.002, 0.45, True, "low", 0.0),
